@@ -352,6 +352,24 @@ impl<'a> Gen<'a> {
             // an attribute no validator knows
             b.attrs.push(("owner".into(), "team-\u{3b1}".into()));
         }
+        if self.rng.chance(1, 6) {
+            // attribute names are case-sensitive: a differently-cased look-alike of a known name is
+            // just another unknown attribute (and reaches scripts exactly as written)
+            let (k, v) = *self.rng.pick(&[
+                ("Severity", "error"),
+                ("SEVERITY", "hint"),
+                ("Keep-Sorted", "desc"),
+                ("Keep-Unique", "("),
+                ("Line-Count", "<0"),
+                ("Line-Pattern", "["),
+                ("Name", "Shadow"),
+                ("maxItems", "3"),
+                ("Owner", "Team-A"),
+                ("Check-Ai", "never sent"),
+                ("Affects", "nocolon"),
+            ]);
+            b.attrs.push((k.into(), v.into()));
+        }
         if clean {
             self.repair_line_count(&mut b);
         }
@@ -505,6 +523,7 @@ impl<'a> Gen<'a> {
         }
         e.ai_base_path = self.rng.pick(&["/v1", "", "/api/openai/v1"]).to_string();
         e.ai_keep_alive = self.rng.chance(1, 2);
+        e.ambient_openai_env = self.rng.chance(1, 3);
     }
 
     // ------------------------------------------------------------------ whole worlds
@@ -639,11 +658,40 @@ impl<'a> Gen<'a> {
                 self.world.files[i].diff = FileDiff::Added;
             } else if roll < 8 && allow_insert {
                 if let Some(l) = self.pick_insert_line(i) {
-                    self.world.files[i].diff = FileDiff::Insert { line: l };
+                    self.world.files[i].diff = FileDiff::Insert { line: l, renamed_from: None };
                 }
             }
         }
         true
+    }
+
+    /// Turns the single-line insertion of file `i` into "renamed and edited": the diff then names
+    /// an old path that no longer exists.
+    pub fn maybe_rename(&mut self, i: usize) {
+        if !self.rng.chance(1, 3) {
+            return;
+        }
+        let FileDiff::Insert { line, .. } = self.world.files[i].diff.clone() else {
+            return;
+        };
+        let path = self.world.files[i].path.clone();
+        let (dir, name) = match path.rsplit_once('/') {
+            Some((d, n)) => (format!("{d}/"), n.to_string()),
+            None => (String::new(), path.clone()),
+        };
+        let old = match self.rng.below(3) {
+            0 => format!("{dir}was_{name}"),
+            1 => format!("attic/{name}"),
+            _ => format!("{dir}old/{name}"),
+        };
+        let collides = old.starts_with("b/")
+            || self.world.files.iter().any(|g| {
+                g.path == old || g.path.starts_with(&format!("{old}/")) || old.starts_with(&format!("{}/", g.path))
+            })
+            || self.world.files.iter().any(|g| matches!(&g.diff, FileDiff::Insert { renamed_from: Some(o), .. } if *o == old));
+        if !collides {
+            self.world.files[i].diff = FileDiff::Insert { line, renamed_from: Some(old) };
+        }
     }
 
     /// A rendered line number that may serve as a pure insertion (see model::invalid_reason).
